@@ -10,7 +10,7 @@ Along each acyclic path (loops unrolled `unroll` times) the walker records
 and judges the path when it reaches an Ok return.
 """
 from . import cfgutil
-from .core import Site, term_path
+from .core import FN_TRAIT_CALLS, Site, term_path
 from .ctx import sem, sem_set, ANCHOR_FIELDS
 from .prov import Slicer, fmt_leaf, binops_in
 from .vfg import place_of
@@ -206,6 +206,19 @@ class ApplyBody(object):
                 v = self.ctx.world.borrowed_local(b, args[0])
                 self.roles[site.bb] = ("push", v, canon(sl.leaves_of_operand(args[1])))
                 continue
+            if p in FN_TRAIT_CALLS and len(args) == 2 and not self.prog.call_targets(site) or (
+                    p in FN_TRAIT_CALLS and len(args) == 2 and all(how == "param" for _, how in self.prog.call_targets(site))):
+                # `on_freed(hash)`: the dereferenced hash is reported through a callback parameter instead of being
+                # pushed to a returned list - the callback is the list
+                tpl = place_of(args[1])
+                tty = self.prog.types[b.locals[tpl["l"]]] if tpl is not None and not tpl["p"] else {}
+                comps = [a for a in tty.get("args", []) if isinstance(a, int)] if tty.get("k") == "tuple" else []
+                if len(comps) == 1 and self.prog.adt_of(comps[0])[0] == self.A.get("HASH"):
+                    v = self.ctx.world.borrowed_local(b, args[0])
+                    if v is None and place_of(args[0]) is not None:
+                        v = place_of(args[0])["l"]
+                    self.roles[site.bb] = ("push", v, canon(sl.leaves_of_operand(args[1], path=("#0",))))
+                    continue
             if p in ("std::cmp::PartialEq::ne", "std::cmp::PartialEq::eq"):
                 t0 = self.ctx.world._place_ty(b, place_of(args[0])) if place_of(args[0]) else None
                 if t0 is not None and self.prog.adt_of(t0)[0] == self.A.get("HASH"):
